@@ -93,7 +93,8 @@ func init() {
 		Explanation: "Decides structural necessary conditions of well-formed bytecode: the three views of the instruction set coincide and the VM " +
 			"decodes exactly the operand widths that Make encodes, every emit site passes the defined number of operands (R-OPTABLE); operands are " +
 			"range-checked before they are narrowed to 16 bits (R-NARROW); every placeholder jump is patched on every success path (R-JUMPPATCH); " +
-			"the compiler rejects node kinds it cannot translate instead of leaving the operand stack inconsistent (R-EXHAUST/Compile).",
+			"the compiler rejects node kinds it cannot translate instead of leaving the operand stack inconsistent (R-EXHAUST/Compile); every computed index into " +
+			"the storage of a VM value is bounded by the length of that same storage (R-CONTAINERIDX); the slot discipline of the symbol table (R-SLOTMAX).",
 		NotDecided:  "Stack balance in general, symbol-table histories (slot arithmetic), host crashes from value-level arithmetic.",
 		Assumptions: []string{"the VM dispatch is the switch over Opcode with the most cases in (*VM).Run", "ip is the instruction pointer variable of Run"},
 		Rules:       []*Rule{ruleOpTable, ruleNarrow, ruleJumpPatch, exhaustRule("Compile", 20), ruleLoopVarScope, ruleVMValues, f2iRule("pkg/bytecode", 2), ruleSlotMax, containerIdxRule("pkg/bytecode", 3)},
@@ -125,7 +126,8 @@ func init() {
 	Register(&Property{
 		ID: "C11",
 		Explanation: "Decides that strings are measured, indexed, sliced and iterated by code point in the evaluator (R-RUNES) and that a user " +
-			"number becomes an index only through normalizeIndex whose float→int conversion is NaN/Inf/fraction safe (R-F2I).",
+			"number becomes an index only through normalizeIndex whose float→int conversion is NaN/Inf/fraction safe (R-F2I); every computed index or slice " +
+			"bound into the storage of a value is bounded by the length of that same storage (R-CONTAINERIDX); index returns a character index, never a byte offset (R-RUNES).",
 		NotDecided:  "The bounds predicate itself (-n ≤ i < n, a ≤ b ≤ n) and which element is returned.",
 		Assumptions: []string{},
 		Rules:       []*Rule{runesRule("pkg/evaluator", "stringVal", 4), f2iRule("pkg/evaluator", 4), ruleEvalMisc, containerIdxRule("pkg/evaluator", 3)},
@@ -164,7 +166,8 @@ func init() {
 		Explanation: "Decides the rejection mechanism structurally: text after a complete statement or after `end` is never skipped without an " +
 			"end-of-line assertion or a recorded error (R-EOLSTATE, path-sensitive typestate over every parser function with verified callee " +
 			"contracts); evaluation is gated on an error-free parse in the library entry point and in `evy run`, which reports on stderr with " +
-			"status 1 and writes no SVG for a rejected program (R-PARSEGATE).",
+			"status 1 and writes no SVG for a rejected program (R-PARSEGATE); a list of parsed expressions is handed on whole or an error is recorded, so extra " +
+			"operands are never accepted and dropped (R-LISTUSE); an empty literal never makes operands of different kinds match (R-TYPEREL).",
 		NotDecided:  "That each static check's predicate is right for every program (scope, type and termination predicates are value-level).",
 		Assumptions: []string{"advancePastNL is the only routine that discards more than one token"},
 		Rules:       []*Rule{ruleEOLState, ruleParseGate, ruleTermConj, ruleScopePairParser, ruleListUse, ruleTypeRel},
@@ -177,8 +180,11 @@ func init() {
 		Explanation: "Decides structural necessary conditions of total parsing: the result of a parser function that can return nil (the 'previous " +
 			"error' marker) is never dereferenced without a dominating non-nil test (R-NILRET, interprocedural source set, one-level callee " +
 			"summaries); no variable with an unresolved type enters a scope (R-SCOPETYPE); no non-literal expression carries a convertible " +
-			"composite type into wrapAny — the class behind the confirmed internal-error panics (R-FIXED).",
-		NotDecided:  "Termination, index ranges, nil values that travel through fields, and that line/column are correct (position arithmetic is value-level).",
+			"composite type into wrapAny, and no type that is fixed still contains the open type of an empty literal — the classes behind the confirmed " +
+			"internal-error panics (R-FIXED, R-CONCRETE); lexing and parsing terminate: the token/rune position only moves forward, every token-driven loop " +
+			"makes progress on every path around it, no recursion is reachable without progress, and loops leave at the end of the input (R-PROGRESS); the main " +
+			"pass runs only after an error-free signature pre-pass, whose nil types it would dereference (R-PARSEGATE).",
+		NotDecided:  "Index ranges in general, nil values that travel through fields other than the signature types, stack depth for deeply nested input, and that line/column are correct (position arithmetic is value-level).",
 		Assumptions: []string{"field-borne nils are not tracked"},
 		Rules:       []*Rule{ruleNilRet, ruleScopeType, ruleFixed, ruleConcrete, ruleLexBound, ruleIndexGuard, ruleProgress, ruleParseGate},
 	})
@@ -186,7 +192,9 @@ func init() {
 		ID: "C04",
 		Explanation: "Decides the structural part of the typing rules: the literal/non-literal distinction on which assignability rests is applied at " +
 			"every expression-node, variable and return-type constructor (R-FIXED); every acceptance is followed by wrapAny with the same target " +
-			"(R-ACCEPTWRAP); inference of a map literal's type does not depend on Go map order (R-MAPRANGE).",
+			"(R-ACCEPTWRAP); inference of a map literal's type does not depend on Go map order (R-MAPRANGE); fixed types are concrete (R-CONCRETE); in accepts and " +
+			"matches the wildcard cases (empty literal, generic parameter) apply only between types of the same kind (R-TYPEREL); range operands are consumed whole " +
+			"or diagnosed (R-LISTUSE).",
 		NotDecided:  "The content of accepts/matches/combineTypes (which cells of the matrix are true) and the operand checks' predicates — value-level.",
 		Assumptions: []string{},
 		Rules:       []*Rule{ruleFixed, ruleConcrete, ruleTypeRel, ruleAcceptWrap, ruleMapRange, ruleListUse},
@@ -196,7 +204,8 @@ func init() {
 		Explanation: "Decides structural necessary conditions of 'formatting loses nothing': every token the parser accepts is represented or " +
 			"diagnosed and every end-of-line comment is recorded before its line is skipped (R-EOLSTATE, comment clause included); the formatter " +
 			"has a case for every node kind, so it never prints its placeholder (R-EXHAUST/format), and reads every source-bearing field of every " +
-			"node type (R-FIELDCOV/format); every array/map literal node is registered in the layout table on every path that returns it (R-LAYOUTKEY).",
+			"node type (R-FIELDCOV/format); every array/map literal node is registered in the layout table on every path that returns it (R-LAYOUTKEY); " +
+			"the text of a string literal reaches the output only through strconv.Quote (R-INDENTPAIR); parsed operand lists are never partly dropped (R-LISTUSE).",
 		NotDecided:  "Token-sequence equality, re-parse equality, comment placement inside multi-line literals, expression re-binding — these need the output text.",
 		Assumptions: []string{},
 		Rules:       []*Rule{ruleEOLState, exhaustRule("format", 25), fieldCovRule("format"), ruleLayoutKey, ruleNoInPlace, ruleIndentPair, ruleListUse},
@@ -236,7 +245,8 @@ func init() {
 			"built-ins agree between docs/builtins.md, the declaration table and the implementation (R-BUILTINSIG); number arguments that are " +
 			"range-checked are checked NaN-safely and reach integer conversions only guarded (R-NANGUARD, R-F2I); the err/errmsg protocol: " +
 			"str2num/str2bool reset the globals before anything else and set them only on the failure edge, and no other function touches them " +
-			"(R-ERRPROTO); len/has/del use the rune view and the map representation (R-RUNES, R-MAPENC).",
+			"(R-ERRPROTO); len/has/del/index use the rune view and the map representation (R-RUNES, R-MAPENC); the error that ends a run (exit, panic) is the " +
+			"one returned by Eval (R-YIELD error clause).",
 		NotDecided:  "Returned values and formatted text of the built-ins (value-level).",
 		Assumptions: []string{},
 		Rules:       []*Rule{ruleBuiltinSig, ruleNaNGuard, f2iRule("pkg/evaluator", 4), ruleErrProto, runesRule("pkg/evaluator", "stringVal", 4), ruleEvalMisc, ruleYield},
@@ -279,7 +289,9 @@ func init() {
 			"(R-EXHAUST/Compile) and consumes every child field of the node kinds it accepts (R-FIELDCOV/Compile); compiler and evaluator implement the same operator matrix or the compiler rejects the rest (R-DISPATCH); the same " +
 			"scope structure for loop variables (R-LOOPVARSCOPE) and the same declaration order (initialiser before definition); the same value " +
 			"discipline: fresh containers, no lost updates on by-value copies (R-VMVALUES); strings handled by code point (R-RUNES/pkg/bytecode); " +
-			"user numbers become indexes only through NaN/fraction-safe guards (R-F2I/pkg/bytecode).",
+			"user numbers become indexes only through NaN/fraction-safe guards, loop counts taken from user numbers are bounded (R-F2I/pkg/bytecode); repetition " +
+			"deep-copies per repetition and a zero step is rejected, as in the evaluator (R-VMVALUES); slot requirements are propagated on every path as a maximum " +
+			"of absolute indexes and nested tables continue the outer numbering (R-SLOTMAX).",
 		NotDecided:  "Equality of final globals in general; slot arithmetic of the symbol table; constant pooling.",
 		Assumptions: []string{},
 		Rules:       []*Rule{exhaustRule("Compile", 20), fieldCovRule("Compile"), ruleDispatch, ruleLoopVarScope, ruleVMValues, runesRule("pkg/bytecode", "stringVal", 4), f2iRule("pkg/bytecode", 2), ruleSlotMax},
@@ -293,7 +305,8 @@ func init() {
 			"symmetric layer is an AEAD so tampering is rejected; every error of the decode/decrypt chain is returned before the value is used; the " +
 			"envelope is sliced behind length checks; both directions agree on hash, label, nonce, additional data and header layout; the crypto " +
 			"functions keep no package state (any key pair round-trips in any order); verifyChoiceMatch rejects on both conditions using the exact " +
-			"outputs; match verification is gated by isMatchQuestion.",
+			"outputs and accepts only after the loop over all outputs; match verification is gated by isMatchQuestion; the length field of the envelope is len() of " +
+			"the RSA ciphertext that follows it; no function on the construction/verification path writes package-level state.",
 		NotDecided:  "Round-trip equality and tamper rejection as such (they follow from the primitives given these clauses); the iff of verifyChoiceMatch over all subsets (a marked choice beyond the last existing one is never examined — value-level).",
 		Assumptions: []string{"crypto/aes, crypto/cipher, crypto/rsa behave as documented"},
 		Rules:       []*Rule{ruleCrypto},
@@ -317,7 +330,7 @@ func init() {
 			"first parameter is bound and restored on every exit (R-SCOPEPAIR/evaluator); payload slot i is bound to declared parameter i behind " +
 			"the length guard; handler parameters are compared with the built-in signature by exact type equality, in number and type, and a " +
 			"handler is registered only for a known event without a handler; the browser queue is first-in first-out (R-EVENTS); errors of a " +
-			"handler run are returned (R-YIELD error clause).",
+			"handler run are returned (R-YIELD error clause); payload values are never updated in place (R-IMMUT).",
 		NotDecided:  "Cumulative effects of event sequences (history-level).",
 		Assumptions: []string{},
 		Rules:       []*Rule{ruleEvents, ruleScopePairEval, ruleYield, ruleImmut},
